@@ -88,6 +88,21 @@ class ConcDB:
         return self.tabs[name]
 
 
+def clean_data_pre(db):
+    """extra precondition: no NULL cell in a present row, no value twice in a column of a base table"""
+    cs = []
+    for t, (cols, rows) in db.tabs.items():
+        for r_ in rows:
+            for c_ in r_.cells:
+                cs.append(z3.Or(z3.Not(r_.present), z3.Not(c_.null)))
+        for i in range(len(rows)):
+            for j in range(i + 1, len(rows)):
+                for x in range(len(cols)):
+                    # (per column: a projection of the table must not have duplicate rows either)
+                    cs.append(z3.Not(z3.And(rows[i].present, rows[j].present, rows[i].cells[x].val == rows[j].cells[x].val)))
+    return cs
+
+
 def _concretise_pow(t):
     """replace pow(c1, c2) applications on numerals by their floating-point value (replay only)"""
     for _ in range(20):
@@ -307,6 +322,8 @@ def check_program(prog, driver, target="sql.sqlite", k=2, schema=None, timeout_m
         keep = [i for i in range(len(sq.cols)) if i not in helper]
         sq = S.SRel([sq.cols[i] for i in keep], [Row(r_.present, [r_.cells[i] for i in keep]) for r_ in sq.rows], sq.order)
         drop = helper
+        if any(c.name and c.name != s_.name for c, s_ in zip(ref.cols, sq.cols)):
+            return arity          # the columns are also permuted or renamed: a positional value comparison says nothing new
         compare_names = False
     o = _compare_values(prog, text, sql_text, schema, db, pre, ref, sq, r, sem, dialect, target, executable, timeout_ms, compare_names, extra_pre, drop)
     if drop is not None:
@@ -329,7 +346,18 @@ def _compare_values(prog, text, sql_text, schema, db, pre, ref, sq, r, sem, dial
             rn = [c.name for c in ref.cols if c.name]
             dup = [(i, None, s.name) for i, (c, s) in enumerate(zip(ref.cols, sq.cols)) if not c.name and s.name in rn and rn.count(s.name) == 1]
             if dup:
-                bad = dup
+                # confirm on SQLite: the name must really occur more than once among the result's column names
+                data_ = {t_: [tuple(range(1 + i, 1 + i + len(cols_))) for i in range(2)] for t_, cols_ in schema.items()}
+                try:
+                    names_, _ = run_sqlite(schema, data_, sql_text)
+                except sqlite3.Error as e_:
+                    return Outcome("violation", kind="sqlite_error", prql=text, sql=sql_text, data=data_, detail=f"names: {dup}; SQLite: {e_}")
+                names_ = [re.sub(r":\d+$", "", n_) for n_ in names_]
+                twice = sorted({n_ for _, _, n_ in dup if names_.count(n_) > 1})
+                if twice:
+                    return Outcome("violation", kind="names", prql=text, sql=sql_text, data=data_,
+                                   detail=f"names: a shadowed (unnamed) column of the final frame comes back under the name that shadows it: {twice}; "
+                                          f"SQLite returns columns {names_}, final frame is {[c.name for c in ref.cols]}")
         if bad:
             names_out = structural(prog, text, sql_text, schema, f"names: {bad}", expect_cols=[c.name for c in ref.cols])
             # a column that merely got a generated name (duplicate names at a split) does not make the program blind to wrong
